@@ -408,6 +408,107 @@ def check_slotted_hierarchy(t, shape):
                         return
 
 
+def check_dict_subclass_and_opaque_values(t, shape):
+    """Added after wave 10.  (a) A LightNodeMixin hierarchy whose subclass declares no __slots__: the instance __dict__
+    attributes travel with every pickle protocol and with deepcopy, next to the slots.  (b) deepcopy is not pickle: a
+    node attribute that deepcopy can copy but pickle cannot (a lambda, an instance of a local class) must not make
+    deepcopy of any node of the tree fail; the function is shared (deepcopy treats functions as atomic), the instance
+    is copied."""
+    import anytree
+    from .. import pickcls
+
+    m = tree.Model.from_shape(shape)
+
+    def report(why, **kw):
+        t.violation("C19: " + why, dict({"engine": "E2", "module": MOD, "part": "dictsub", "shape": shape}, **kw))
+
+    for meth_name, meth in methods(True):
+        item, noted = pickcls.fresh_light_dict_subclass()
+        for root_cls, other_cls in ((item, noted), (noted, item)):
+            nodes = [(root_cls if i == 0 else other_cls)("n%d" % i, ["d", i]) for i in range(m.n)]
+            for i, nd in enumerate(nodes):
+                if isinstance(nd, noted):
+                    nd.note = (None, 0, "", ["note", i])[i % 4]
+                if m.par[i] is not None:
+                    nd.parent = nodes[m.par[i]]
+            for entry in (0, m.n - 1):
+                cp = meth(nodes[entry])
+                croot = root_of(cp)
+                pairs, why = [], []
+                if croot is None:
+                    why = ["no root"]
+                else:
+                    walk_pairs(nodes[0], croot, pairs, why)
+                t.c["evaluations"] += 1
+                t.c["dict_subclass_copies"] += 1
+                for o, c in pairs:
+                    if (o.name, o.data) != (getattr(c, "name", "<lost>"), getattr(c, "data", "<lost>")):
+                        why.append("slot attributes differ in the copy")
+                    if isinstance(o, noted) and vars(o) != vars(c):
+                        why.append("instance __dict__ of a subclass without __slots__ differs in the copy: %r vs %r" % (vars(o), vars(c)))
+                if why:
+                    report(why[0], method=meth_name, entry=entry, root_class="slotted base" if root_cls is item else "subclass without __slots__")
+                    return
+
+    class Local(object):
+        def __init__(self, v):
+            self.v = v
+
+    class LocalLight(anytree.LightNodeMixin):
+        def __init__(self, name):
+            self.name = name
+
+    for label, factory in (("Node", lambda i: anytree.Node("n%d" % i)), ("AnyNode", lambda i: anytree.AnyNode(id=i)),
+                           ("LightNodeMixin subclass without __slots__", lambda i: LocalLight("n%d" % i))):
+        for holder in range(m.n):
+            nodes = [factory(i) for i in range(m.n)]
+            for i in range(m.n):
+                if m.par[i] is not None:
+                    nodes[i].parent = nodes[m.par[i]]
+            fn = lambda x: x + holder  # noqa: E731
+            nodes[holder].fn = fn
+            nodes[holder].obj = Local([holder])
+            for entry in range(m.n):
+                t.c["evaluations"] += 1
+                t.c["opaque_value_deepcopies"] += 1
+                try:
+                    cp = copy.deepcopy(nodes[entry])
+                except Exception as exc:  # noqa: BLE001
+                    report("deepcopy of a node fails (%s) because a node of the tree holds a value that pickle cannot serialise but "
+                           "deepcopy can copy" % type(exc).__name__, node_class=label, holder=holder, entry=entry)
+                    return
+                croot = root_of(cp)
+                pairs, why = [], []
+                if croot is None:
+                    why = ["no root"]
+                else:
+                    walk_pairs_shape_only(nodes[0], croot, pairs, why)
+                for o, c in pairs:
+                    if o is nodes[holder]:
+                        if getattr(c, "fn", None) is not fn:
+                            why.append("function-valued attribute is not carried over by deepcopy")
+                        co = getattr(c, "obj", None)
+                        if type(co) is not Local or co is o.obj or co.v != o.obj.v or co.v is o.obj.v:
+                            why.append("object-valued attribute is not deep-copied")
+                if why:
+                    report(why[0], node_class=label, holder=holder, entry=entry)
+                    return
+
+
+def walk_pairs_shape_only(o, c, pairs, why, depth=0):
+    pairs.append((o, c))
+    if type(o) is not type(c) or o is c:
+        why.append("copy node has another class or is the original object")
+        return
+    if len(o.children) != len(c.children) or depth > 50:
+        why.append("number of children differs")
+        return
+    for x, y in zip(o.children, c.children):
+        if y.parent is not c:
+            why.append("C01 on the copy: a child's parent is not the node listing it")
+        walk_pairs_shape_only(x, y, pairs, why, depth + 1)
+
+
 def cases(n, max_links):
     out = []
     for shape in tree.plane_trees(n):
@@ -429,6 +530,8 @@ def job(items):
     for shape, assign, targets, light in items:
         if light and len(assign) >= 2:
             core.guard(t, "C19", {"engine": "E2", "module": MOD, "part": "slotted", "shape": shape}, check_slotted_hierarchy, t, shape)
+            core.guard(t, "C19", {"engine": "E2", "module": MOD, "part": "dictsub", "shape": shape},
+                       check_dict_subclass_and_opaque_values, t, shape)
         core.guard(t, "C19", {"engine": "E2", "module": MOD, "shape": shape, "assign": list(assign),
                               "targets": {str(k): list(v) for k, v in targets.items()}, "light": light},
                    check_case, t, shape, assign, targets, light)
@@ -443,6 +546,9 @@ def replay(c):
     t = core.Tally()
     if c.get("part") == "slotted":
         check_slotted_hierarchy(t, _tup(c["shape"]))
+        return [v["why"] for v in t.violations]
+    if c.get("part") == "dictsub":
+        check_dict_subclass_and_opaque_values(t, _tup(c["shape"]))
         return [v["why"] for v in t.violations]
     targets = {int(k): tuple(v) for k, v in c["targets"].items()}
     only = (c["entry"], c["method"]) if "entry" in c else None
